@@ -15,6 +15,30 @@ CHECKS = {
          "Exploration: the bound itself is the oracle (min of two width measures <= w on every line of every Ok result, string and lines routes), on documents biased to the width boundary, tables with colspans/nesting/tiny cells, pre, footnotes, wide and zero-width characters, widths 1..=120, all decorators and option mixes allowed by the property.",
          "Display width = unicode-width 0.2; a line is over-wide only if both width measures exceed the limit.",
          "DESIGN.md §3 C02"),
+ "C03": ("runtime text-preservation monitor: visible character stream of an independent oracle DOM vs T-projection of the output",
+         "Exploration: for every Ok rendering of grammar and byte-mutated documents the T-projection of the output (letters of a token alphabet disjoint from everything the renderer adds) is compared with the visible character stream of the harness's own html5ever TreeSink - as a sequence for table-free documents and raw mode, as a multiset plus per-cell subsequence for bordered tables, and for the trivial decorator on every character. Hand-written regression inputs run as the first cases. Four genuine defects of the pinned tree are listed as known findings by structural signature.",
+         "Oracle DOM shares html5ever's tokenizer/tree builder with the crate; img alt counts only with a src; template contents/comments/control characters are not visible.",
+         "DESIGN.md §3 C03"),
+ "C04": ("reference-model monitor: 40-line greedy wrapper vs rendered paragraph lines, bounded-exhaustive word-width tuples + random paragraphs",
+         "Exploration with an exhaustive small scope: all word-width tuples (quick: <=4 words of width 1..6; thorough: <=5 words of width 1..7) x all widths 1..=40, and random paragraphs up to 60 words, each rendered as one text node (plain) and split across text nodes/comments/inline elements (rich), under max_wrap_width and inside one prefixed block; lines must equal the reference wrapper's, TooNarrow exactly when a width-2 character meets a width-1 line.",
+         "Standalone zero-width words are not generated; display width from unicode-width.",
+         "DESIGN.md §3 C04"),
+ "C10": ("history monitor: all public routes compared on one reused/cloned render tree over width sequences",
+         "Exploration over call histories: one document, one configuration, width sequences with repeats/out-of-order/0/too-narrow values; string_from_read (twice), join(lines_from_read), coloured(identity), and render_to_string/render_to_lines on clones of one tree built once must agree byte for byte (or fail with the same error) at every position of the history.",
+         "Routes are compared inside one process.",
+         "DESIGN.md §3 C10"),
+ "C11": ("pair monitor: (width 0, without overflow, with overflow) triples; AST-derived prefix bound",
+         "Exploration: width 0 must give TooNarrow; with allow_width_overflow every width>=1 must give Ok (fuel/panic/TooNarrow are violations); an Ok result must be byte-identical with overflow allowed; for table-free grammar documents every overflowing line obeys max(w, P + max(min_wrap_width,5)) with P computed from the generator's AST.",
+         "P computed for the built-in and ASCII custom decorators.",
+         "DESIGN.md §3 C11"),
+ "C13": ("metamorphic pair monitor: canonical vs rewritten serialisation of one AST",
+         "Exploration: one AST is serialised canonically and with whitespace-run substitution / adjacent comments / span wrapping / gaps between block tags / tag style, alone and combined; plain strings and rich tagged lines must be equal at every sampled width.",
+         "Whitespace is only inserted where the property allows it (existing collapsible runs, between block-level siblings).",
+         "DESIGN.md §3 C13"),
+ "C15": ("metamorphic pair monitor: base configuration vs base+one option, one relation per option",
+         "Exploration: per option the documented relation between render(d,w,base) and render(d,w,base+o) is checked (max_wrap>=w no-op, flat-document equivalence, P+m bound, padding only trailing spaces, strikeout only U+0336, no box characters without borders/raw, footnotes off removes only references and list, unwrapped link notes, non-applicable options are no-ops). One genuine defect (padding adds a blank line after an empty <pre> line) is a known finding.",
+         "P as in C11; footnote relation compared modulo runs of spaces, strike marks and prefix-only lines.",
+         "DESIGN.md §3 C15"),
 }
 
 def main():
